@@ -3,23 +3,18 @@
     Kkt/Spec.v (intended layout, Schur complements) and Kkt/Stmts.v (algorithm model);
     proofs are in Kkt/Lemmas*.v.
 
-    NOT proved in general (kept visible, see design.d/C11.md):
-      assemble_refines_spec : forall P A shapes tri, wf_input P A shapes ->
-          Model.assemble (encode P) (encode A) shapes tri
-          = (encode (Spec.kkt_matrix P A shapes tri), Spec.kkt_maps P A shapes tri)
-    Proved (Triu): [C11_assemble_refines_spec_triu_partial] — Model.assemble on the raw encodings
-    returns the Spec matrix and the Spec maps P, A, Hsblocks and sparse maps, from [wf_input] and
-    [buckets_sorted] (every column of the Spec entry list in non-decreasing row order; evaluated
-    as a boolean on every generated Triu layout).  Built from [C11_fill_script],
-    [C11_triu_script_refines_spec_partial], [C11_cones_fill_script], [C11_cones_colcounts] and the
-    raw-encoding lemmas of Kkt/LemmasRaw.v.  Missing, exactly: (a) [buckets_sorted] from
-    [wf_input]; (d) the diag_full/diagP extraction = [pos_rc]; (e) the Tril order.  These remain
-    validated by the correspondence (checker [Kkt.Check.c_assemble], code 3 = Model differs). *)
+    PROVED for both triangles — [C11_assemble_refines_spec]:
+      forall P A shapes tri, wf_input P A shapes ->
+        Model.assemble (encode P) (encode A) shapes tri
+        = (encode (Spec.kkt_matrix P A shapes tri), Spec.kkt_maps P A shapes tri)
+    (matrix and all six maps; hypotheses on the inputs only).  The correspondence run ties
+    Model.assemble to the Rust code (checker [Kkt.Check.c_assemble]). *)
 From Coq Require Import List ZArith Reals Permutation Lia.
 Import ListNotations.
 Require Import Clarabel.Base.Ops Clarabel.Csc.Model Clarabel.Kkt.Spec Clarabel.Kkt.Model Clarabel.Kkt.Stmts.
 Require Import Clarabel.Kkt.LemmasSchur Clarabel.Kkt.LemmasVals Clarabel.Kkt.LemmasSpec Clarabel.Kkt.LemmasDiag.
 Require Import Clarabel.Kkt.LemmasWf Clarabel.Kkt.LemmasFill Clarabel.Kkt.LemmasRefine Clarabel.Kkt.LemmasCone Clarabel.Kkt.LemmasCount Clarabel.Kkt.LemmasRaw.
+Require Import Clarabel.Kkt.LemmasOrder Clarabel.Kkt.LemmasDiagPos Clarabel.Kkt.LemmasAssemble Clarabel.Kkt.LemmasTril.
 
 (** eliminating the auxiliary variables of a sparse expansion reproduces the cone's H *)
 Theorem C11_soc_expansion_schur : stmt_soc_expansion_schur.
@@ -56,16 +51,25 @@ Proof. exact maps_partition_ok. Qed.
 (** refinement, staged *)
 Theorem C11_fill_script : stmt_fill_script.
 Proof. exact fill_script_ok. Qed.
-Theorem C11_triu_script_refines_spec_partial : stmt_triu_script_refines_spec.
-Proof. exact triu_script_refines_spec_ok. Qed.
 Theorem C11_cones_fill_script : stmt_cones_fill_script.
 Proof. exact cones_fill_script_ok. Qed.
 Theorem C11_cones_colcounts : stmt_cones_colcounts.
 Proof. exact cones_colcounts_ok. Qed.
-(** the composed Triu refinement: Model.assemble on the raw encodings = Spec (matrix, maps P, A,
-    Hsblocks, sparse maps), from wf_input + buckets_sorted *)
-Theorem C11_assemble_refines_spec_triu_partial : stmt_assemble_refines_spec_triu_partial.
-Proof. exact assemble_refines_spec_triu_partial_ok. Qed.
+(** THE Triu refinement, from the well-formedness of the inputs alone: Model.assemble on the raw
+    encodings = (Spec matrix, all Spec maps incl. diagP / diag_full) *)
+Theorem C11_assemble_refines_spec_triu : stmt_assemble_refines_spec_triu.
+Proof. exact assemble_refines_spec_triu_ok. Qed.
+Theorem C11_assemble_refines_spec_tril : stmt_assemble_refines_spec_tril.
+Proof. exact assemble_refines_spec_tril_ok. Qed.
+(** THE refinement theorem of C11, both triangles *)
+Theorem C11_assemble_refines_spec : stmt_assemble_refines_spec.
+Proof. exact assemble_refines_spec_ok. Qed.
+(** every position stored at most once; the diagonal maps point at the diagonal entries, which
+    are the last entries of their columns (Triu) *)
+Theorem C11_positions_unique : stmt_positions_unique.
+Proof. exact positions_unique_ok. Qed.
+Theorem C11_diag_maps_triu : stmt_diag_maps_triu.
+Proof. exact diag_maps_triu_ok. Qed.
 Theorem C11_buckets_sortedb_sound : stmt_buckets_sortedb_sound.
 Proof. exact buckets_sortedb_sound_ok. Qed.
 
